@@ -1,7 +1,7 @@
 /* encdrv: deterministic SVT-AV1 encode session driver (DESIGN.md 3.3).
  *
  * usage: encdrv key=value ...
- *   session keys : w h n bits content cseed pat final recon out pts stride_extra padbyte lifetime
+ *   session keys : w h n bits content cseed pat final recon out pts stride_extra stride_extra_cb stride_extra_cr padbyte lifetime
  *                  priv hdr prefill eos_after teardown_at drainall
  *   every other key is an EbSvtAv1EncConfiguration field name (arrays: name.<i>=v)
  * Prints one JSON object on stdout describing everything observable through the API.
@@ -276,6 +276,7 @@ static int cycle_no;
 static int session_main(int argc, char **argv) {
     Cfg *cfg = malloc(sizeof *cfg);
     const char *pat = "d", *final_ = "b", *out = NULL, *ptsmode = "seq", *lifetime = "keep";
+    int stride_extra_cb = 0, stride_extra_cr = 0;
     int stride_extra = 0, padbyte = 0, priv = 1, hdr = 1, prefill = 0, teardown_at = -1, send_eos = 1;
     int drainall = 1, teardown_drain = 0;
     const char *segtrace = NULL, *stop_after = "";
@@ -292,6 +293,7 @@ static int session_main(int argc, char **argv) {
         else if (!strcmp(k, "content")) content = v; else if (!strcmp(k, "cseed")) cseed = (uint32_t)atoi(v);
         else if (!strcmp(k, "pat")) pat = v; else if (!strcmp(k, "final")) final_ = v;
         else if (!strcmp(k, "out")) out = v; else if (!strcmp(k, "pts")) ptsmode = v;
+        else if (!strcmp(k, "stride_extra_cb")) stride_extra_cb = atoi(v); else if (!strcmp(k, "stride_extra_cr")) stride_extra_cr = atoi(v);
         else if (!strcmp(k, "stride_extra")) stride_extra = atoi(v); else if (!strcmp(k, "padbyte")) padbyte = atoi(v);
         else if (!strcmp(k, "lifetime")) lifetime = v; else if (!strcmp(k, "priv")) priv = atoi(v);
         else if (!strcmp(k, "hdr")) hdr = atoi(v); else if (!strcmp(k, "prefill")) prefill = atoi(v);
@@ -347,8 +349,9 @@ static int session_main(int argc, char **argv) {
     }
     int bps = BITS > 8 ? 2 : 1;
     int ys = W + stride_extra, cs = (W + 1) / 2 + (stride_extra + 1) / 2;
+    int cbs = cs + stride_extra_cb, crs = cs + stride_extra_cr;   /* chroma planes may have strides of their own */
     int ch = (H + 1) / 2, cw = (W + 1) / 2;
-    size_t ysz = (size_t)ys * H * bps, csz = (size_t)cs * ch * bps;
+    size_t ysz = (size_t)ys * H * bps, cbsz = (size_t)cbs * ch * bps, crsz = (size_t)crs * ch * bps;
     recon_hdr.size = sizeof recon_hdr;
     recon_hdr.n_alloc_len = (uint32_t)((size_t)(W + 16) * (H + 16) * 3 + 65536) * 2;
     recon_hdr.p_buffer = malloc(recon_hdr.n_alloc_len);
@@ -359,12 +362,12 @@ static int session_main(int argc, char **argv) {
     int torn = 0;
     for (int f = 0; f < N; f++) {
         if (teardown_at == f) { torn = 1; break; }
-        uint8_t *buf = (!strcmp(lifetime, "keep") && keepbuf) ? keepbuf : malloc(ysz + 2 * csz + 64);
+        uint8_t *buf = (!strcmp(lifetime, "keep") && keepbuf) ? keepbuf : malloc(ysz + cbsz + crsz + 64);
         keepbuf = !strcmp(lifetime, "keep") ? buf : NULL;
-        memset(buf, padbyte == 256 ? (f * 37 + 11) & 255 : padbyte, ysz + 2 * csz + 64);
-        uint8_t *pl[3] = { buf, buf + ysz, buf + ysz + csz };
+        memset(buf, padbyte == 256 ? (f * 37 + 11) & 255 : padbyte, ysz + cbsz + crsz + 64);
+        uint8_t *pl[3] = { buf, buf + ysz, buf + ysz + cbsz };
         for (int p = 0; p < 3; p++) {
-            int pw = p ? cw : W, ph = p ? ch : H, st = p ? cs : ys;
+            int pw = p ? cw : W, ph = p ? ch : H, st = p == 0 ? ys : p == 1 ? cbs : crs;
             for (int y = 0; y < ph; y++)
                 for (int x = 0; x < pw; x++) {
                     int v = sampleN(f, p, x, y);
@@ -374,11 +377,11 @@ static int session_main(int argc, char **argv) {
         }
         EbSvtIOFormat io; memset(&io, 0, sizeof io);
         io.luma = pl[0]; io.cb = pl[1]; io.cr = pl[2];
-        io.y_stride = (uint32_t)ys; io.cb_stride = io.cr_stride = (uint32_t)cs;
+        io.y_stride = (uint32_t)ys; io.cb_stride = (uint32_t)cbs; io.cr_stride = (uint32_t)crs;
         io.width = (uint32_t)W; io.height = (uint32_t)H; io.color_fmt = EB_YUV420; io.bit_depth = BITS > 8 ? EB_TEN_BIT : EB_EIGHT_BIT;
         EbBufferHeaderType ih; memset(&ih, 0, sizeof ih);
         ih.size = sizeof ih; ih.p_buffer = (uint8_t *)&io;
-        ih.n_filled_len = (uint32_t)(ysz + 2 * csz); ih.n_alloc_len = ih.n_filled_len;
+        ih.n_filled_len = (uint32_t)(ysz + cbsz + crsz); ih.n_alloc_len = ih.n_filled_len;
         int64_t pts = f;
         if (!strcmp(ptsmode, "off")) pts = 1000 + 3 * f;
         else if (!strcmp(ptsmode, "perm")) pts = (int64_t)((f * 7 + 3) % (N > 0 ? N : 1)) * 10 + (f & 1);
@@ -392,7 +395,7 @@ static int session_main(int argc, char **argv) {
         EbErrorType e = svt_av1_enc_send_picture(hdl, &ih);
         if (e != EB_ErrorNone) nsend_err++;
         nsent = f + 1;
-        if (!strcmp(lifetime, "scribble")) memset(buf, 0xFF, ysz + 2 * csz + 64);
+        if (!strcmp(lifetime, "scribble")) memset(buf, 0xFF, ysz + cbsz + crsz + 64);
         else if (!strcmp(lifetime, "free")) free(buf);
         char c = pat[f < patlen ? f : patlen - 1];
         if (c == 'd') { vs_quiesce(); poll_packets(); poll_recon(); }
